@@ -143,7 +143,7 @@ pub fn check(ctx: &Ctx) -> Check {
     let parts: Vec<Box<dyn Part>> = vec![Box::new(RandomPart {
         name: "create-counts",
         rule: "generated call sets (1..3 contigs, 1..12 samples, 0..40 records; phased/unphased, missing, multiallelic, monomorphic, symbolic ALT, extra INFO/FORMAT fields, records without a GT key; non-diploid genotypes only in unselected samples; record classes all-complete / all-missing / one-missing / only-unselected-incomplete forced) x sample->population maps (1..4 populations, any subset, inline or file, or no option at all) x container {vcf, bgzf vcf, bgzf bcf, raw bcf}: exit 0, shape (2n_j+1), every cell equal to the reference model's count and printed as a bare integer; non-trivial = >=1 record counted and (unequal population sizes | strict subset | >=1 skipped record | a counted record whose only incomplete sample is unselected); distinct by (call set, map, container)",
-        cases: ctx.tier.pick(8000, 100_000),
+        cases: ctx.tier.pick(8000, 300_000),
         strategy: Box::new(|| strategy(GenParams::default()).boxed()),
         eval: Box::new(eval),
     })];
